@@ -216,6 +216,21 @@ def mon_c02(im, p):
     return {'fail': fails, 'nontrivial': out.startswith('ok')}
 
 
+def mon_c02_process(im, p):
+    """the same audit, in a pristine interpreter (forked from a process that imported the library and never evaluated
+    anything): whatever an evaluation defers to its first use - an import, a table load, a compile - shows here"""
+    ans = _zygote_ask({'kind': 'audit', 'srcs': p['srcs']})
+    if ans.startswith('ZYGOTE'):
+        return {'fail': [], 'nontrivial': False, 'zygote': ans}
+    fails = []
+    for src, evs in zip(p['srcs'], json.loads(ans)):
+        if evs:
+            fails.append({'signature': 'audit-pristine:' + evs[0], 'what': f'in a pristine interpreter, evaluating {src!r} raised audit events {evs[:6]}',
+                          'input': {'src': src}})
+            break
+    return {'fail': fails, 'nontrivial': True}
+
+
 # ------------------------------------------------------------------ C03
 def mon_c03(im, p):
     ns = im.ns
